@@ -19,6 +19,7 @@ Schedules (``cfg['part']``):
                built on one arm and used on the other;
 - ``threads``: (c) the call in one simulated thread while another flips the
                switch at a pre-emption point inside it.
+``cfg['family']`` (optional, e.g. ``"silent"``) keeps one generator of the catalogue.
 
 Faults / perturbations: backend-flip, backend-flip-concurrent, cache-clear,
 cross-arm-object, object-rebuilt; RNG seam in uniform or edge mode (blinding and
@@ -145,7 +146,7 @@ def twin(ctx: Ctx, op: Op) -> Obs | None:
         st.set_backend(arm)
         obs[arm] = observe(op)
     ctx.log("twin", op.site, op.note, obs[True].tag, obs[False].tag)
-    ctx.state(f"{op.api}:{obs[True].tag[:3]}")
+    ctx.state(f"{op.site}:{obs[True].tag[:3]}")
     ctx.probe(("answered:" if obs[True].tag.startswith("ok") else "refused:") + op.api)
     if obs[True].value is True or (obs[True].tag.startswith("ok") and op.api.startswith("engine.")):
         ctx.probe("accepted:" + op.api)
@@ -589,6 +590,33 @@ def g_musig(ctx: Ctx) -> Op:
               make=lambda: musig2.SessionContext(agg_arg, pks_arg, tweaks, xonly, msg), note=f"n={n} msg={len(msg)} tweaks={len(tweaks)}")
 
 
+def g_sums(ctx: Ctx) -> Op:
+    """The `_sum_var`-backed helpers: BIP352's input key sum, MuSig2's nonce aggregation."""
+    from btclib import silent_payments as sp  # noqa: PLC0415
+    from btclib.curves import secp256k1  # noqa: PLC0415
+    from btclib.ecc import musig2  # noqa: PLC0415
+
+    ch = ctx.ch
+    n = 1 + ch.draw(4, "sum.n")
+    qs = [H.uniform_scalar(ch, "sum.q") for _ in range(n)]
+    j = ch.draw(n, "sum.j")
+    cls = ch.pick(["valid", "valid", "sum-to-infinity", "partial-sum-at-infinity", "hostile-term", "no-terms"], "sum.cls")
+    if ch.draw(2, "sum.kind"):
+        keys: list[Any] = [H.pub_key(ch, "sum.key", q, False)[1] for q in qs]
+        if cls == "hostile-term":
+            cls, keys[j] = H.pub_key(ch, "sum.bad", qs[j], True)
+        keys = {"sum-to-infinity": keys + [secp256k1.negate(H.mult(q)) for q in qs], "no-terms": [],
+                "partial-sum-at-infinity": [keys[0], secp256k1.negate(H.mult(qs[0])), *keys[1:], H.G]}.get(cls, keys)
+        return Op("silent_payments.pub_key_sum", cls, lambda: sp.pub_key_sum(keys), note=f"n={len(keys)}")
+    pubn = [musig2.nonce_gen_(ch.nbytes(32, "sum.rand"), q, musig2.individual_pub_key(q))[1] for q in qs]
+    neg = [bytes([pn[0] ^ 1]) + pn[1:33] + bytes([pn[33] ^ 1]) + pn[34:] for pn in pubn]
+    if cls == "hostile-term":
+        cls = "pubnonce-off-curve"
+        pubn[j] = pubn[j][:33] + b"\x02" + H.b32(H.off_curve_x(ch, "sum.x"))
+    pubn = {"sum-to-infinity": pubn + neg, "no-terms": [], "partial-sum-at-infinity": [pubn[0], neg[0], *pubn[1:], pubn[0]]}.get(cls, pubn)
+    return Op("musig2.nonce_agg", cls, lambda: musig2.nonce_agg(pubn), note=f"n={len(pubn)}")
+
+
 def _spk(kind: str, Q: tuple[int, int]) -> bytes:
     from btclib.hashes import hash160  # noqa: PLC0415
 
@@ -765,12 +793,13 @@ def g_engine(ctx: Ctx) -> Op:
 
 CATALOGUE: list[tuple[Callable[[Ctx], Op], int]] = [
     (g_mult, 4), (g_dsa_sign, 3), (g_dsa_verify, 4), (g_ssa_sign, 3), (g_ssa_verify, 3), (g_ssa_batch, 2), (g_bms, 2), (g_bip32, 3),
-    (g_taproot, 4), (g_dh, 2), (g_ellswift, 3), (g_musig, 3), (g_silent, 4), (g_engine, 5),
+    (g_taproot, 4), (g_dh, 2), (g_ellswift, 3), (g_musig, 3), (g_sums, 2), (g_silent, 4), (g_engine, 5),
 ]
 
 
 def draw_op(ctx: Ctx) -> Op:
-    gen = ctx.ch.weighted(CATALOGUE, "op.family")
+    only = ctx.cfg.get("family")  # e.g. family="silent": one generator only (focus plans, debugging)
+    gen = ctx.ch.weighted([(g, w) for g, w in CATALOGUE if only is None or g.__name__ == "g_" + only], "op.family")
     op = gen(ctx)
     ctx.probe("class:" + ("valid" if op.cls == "valid" else "hostile"))
     return op
@@ -861,11 +890,11 @@ def _threads(ctx: Ctx) -> None:
     st.set_backend(bool(ch.draw(2, "threads.born")))
     objs = [build(op) if op.make is not None else None for op, _ in ops]
     st.set_backend(arm0)
-    _, est = count_steps(lambda: [observe(op, obj) for (op, _), obj in zip(ops, objs)], dedupe="op")
+    est = sum(count_steps(lambda op=op, obj=obj: observe(op, obj), dedupe="op")[1] for (op, _), obj in zip(ops, objs))
     st.set_backend(arm0)
     kind = ch.weighted([("pct", 6), ("unif", 3)], "strategy")
     strategy: dict[str, Any] = {"kind": kind, "d": 1 + ch.draw(3, "pct.d")} if kind == "pct" else {"kind": kind, "p": ch.pick([(1, 50), (1, 10), (3, 10)], "p")}
-    sched = SimThreads(ctx, strategy, dedupe="op", max_steps=int(ctx.cfg.get("max_steps", 200000)))
+    sched = SimThreads(ctx, strategy, dedupe=ch.weighted([("op", 3), ("frame", 1)], "dedupe"), max_steps=int(ctx.cfg.get("max_steps", 200000)))
     results: list[Obs] = []
     inside = {"op": False}
 
@@ -914,7 +943,7 @@ def _plans(tier: str) -> list[Any]:
     return [
         Plan("backend", {"part": "twin"}, share=3.0, chunk=20, label="backend/twin"),
         Plan("backend", {"part": "history"}, share=2.0, chunk=10, label="backend/history"),
-        Plan("backend", {"part": "threads"}, share=2.0, chunk=10, label="backend/threads"),
+        Plan("backend", {"part": "threads"}, share=3.0, chunk=10, label="backend/threads"),
     ]
 
 
